@@ -50,7 +50,11 @@ struct Preprocessor {
     helpers: Vec<HelperForm>,
     strict: bool,
     stored_macros: HashMap<Vec<u8>, Rc<SExp>>,
+    macro_output_depth: usize,
 }
+
+// How many times macro output may in turn be the call of a macro.
+const MACRO_OUTPUT_DEPTH_LIMIT: usize = 200;
 
 fn compose_defconst(loc: Srcloc, name: &[u8], sexp: Rc<SExp>) -> Rc<SExp> {
     Rc::new(enlist(
@@ -101,6 +105,7 @@ impl Preprocessor {
             helpers: Vec::new(),
             strict: opts.dialect().strict,
             stored_macros: HashMap::default(),
+            macro_output_depth: 0,
         }
     }
 
@@ -339,7 +344,23 @@ impl Preprocessor {
                         .map(nilize)
                         .map_err(CompileErr::from)?;
 
-                        if let Some(final_result) = self.expand_macros(res.clone(), true)? {
+                        // The output of a macro is expanded in turn; a macro
+                        // whose output always calls it again never finishes.
+                        if self.macro_output_depth >= MACRO_OUTPUT_DEPTH_LIMIT {
+                            return Err(CompileErr(
+                                body.loc(),
+                                format!(
+                                    "macro {} expanded more than {} times in its own output",
+                                    decode_string(&name),
+                                    MACRO_OUTPUT_DEPTH_LIMIT
+                                ),
+                            ));
+                        }
+                        self.macro_output_depth += 1;
+                        let expanded_output = self.expand_macros(res.clone(), true);
+                        self.macro_output_depth -= 1;
+
+                        if let Some(final_result) = expanded_output? {
                             return Ok(Some(final_result));
                         } else {
                             return Ok(Some(res));
